@@ -349,6 +349,11 @@ impl Cartesian<'_> {
             return Err("Collision on the planned stroke".into());
         }
 
+        if !self.include_linear_interpolation {
+            // Linear interpolated poses are only needed for planning and checking
+            trace.retain(|waypoint| !waypoint.flags.contains(PathFlags::LIN_INTERP));
+        }
+
         Ok(trace)
     }
 
